@@ -345,6 +345,65 @@ pub fn run(ctx: &mut Ctx) {
             }
             Err(p) => ctx.violation(&format!("unseal/panic/{}", p.signature()), &format!("{:?}", p), replay()),
         }
+        // a sealed envelope addressed to SEVERAL recipients (sign, then wrap-and-encrypt to the list): each of them
+        // unseals it to the original
+        if listed.len() >= 2 && !s.scheme.starts_with("SshEcdsa") {
+            ctx.eval();
+            ctx.count("unseal_with_several_recipients");
+            match trap::guard(|| {
+                let multi = e.sign_opt(&s.sk, s.options()).wrap_envelope().encrypt_subject_to_recipients(&encs)?;
+                let mut out = Vec::new();
+                for k in &listed {
+                    out.push(multi.unseal(&s.pk, &k.sk));
+                }
+                Ok::<_, anyhow::Error>((out, unlisted.first().map(|u| multi.unseal(&s.pk, &u.sk).is_ok()), multi.unseal(&s2.pk, &listed[0].sk).is_ok()))
+            }) {
+                Ok(Ok((results, wrong_recipient, wrong_sender))) => {
+                    for (k, r) in listed.iter().zip(results) {
+                        match r {
+                            Ok(u) if u.is_identical_to(&e) => {}
+                            Ok(_) => ctx.violation("unseal-multi/not-identical", "unseal by one of several recipients is not the original", replay()),
+                            Err(err) => ctx.violation("unseal-multi/err", &format!("one of several recipients ({}) cannot unseal: {}", k.scheme, err), replay()),
+                        }
+                    }
+                    if wrong_recipient == Some(true) || wrong_sender {
+                        ctx.violation("unseal-multi/wrong-key-accepted", "unseal succeeded with an unlisted recipient or another sender", replay());
+                    }
+                }
+                Ok(Err(err)) => ctx.violation("unseal-multi/encrypt-err", &format!("{}", err), replay()),
+                Err(p) => ctx.violation(&format!("unseal-multi/panic/{}", p.signature()), &format!("{:?}", p), replay()),
+            }
+        }
+        // forwarding: a recipient opens the envelope (the hasRecipient assertions stay on it) and encrypts it
+        // again to somebody else; every NEW recipient opens it to the original
+        if !unlisted.is_empty() {
+            ctx.eval();
+            ctx.count("forwarded_envelopes");
+            let nn = rng.range(1, unlisted.len().min(3));
+            let newr: Vec<&RKey> = unlisted[..nn].to_vec();
+            let newe: Vec<&dyn Encrypter> = newr.iter().map(|k| &k.pk as &dyn Encrypter).collect();
+            match trap::guard(|| {
+                let opened = x.decrypt_subject_to_recipient(&listed[0].sk)?;
+                let fwd = if newe.len() == 1 && case % 2 == 1 { opened.encrypt_subject_to_recipient(newe[0])? } else { opened.encrypt_subject_to_recipients(&newe)? };
+                let mut out = Vec::new();
+                for k in &newr {
+                    out.push(fwd.decrypt_subject_to_recipient(&k.sk));
+                }
+                Ok::<_, anyhow::Error>(out)
+            }) {
+                Ok(Ok(results)) => {
+                    for (k, r) in newr.iter().zip(results) {
+                        match r {
+                            Ok(d) if strip_recipients(&d).is_identical_to(&e) => {}
+                            Ok(_) => ctx.violation("forward/not-original", "a forwarded envelope opened by a new recipient (minus hasRecipient assertions) is not the original", replay()),
+                            Err(err) => ctx.violation("forward/cannot-decrypt", &format!("new recipient ({}) of a forwarded envelope got an error: {}", k.scheme, err), replay()),
+                        }
+                    }
+                }
+                Ok(Err(err)) => ctx.violation("forward/err", &format!("opening and re-encrypting to new recipients failed: {}", err), replay()),
+                Err(p) => ctx.violation(&format!("forward/panic/{}", p.signature()), &format!("{:?}", p), replay()),
+            }
+        }
         ctx.sample(|| J::obj(vec![("case", J::i(case)), ("envelope", J::s(brief(&t))), ("recipients", J::Arr(listed.iter().map(|k| J::s(k.scheme)).collect())), ("sender", J::s(s.scheme))]));
         let _ = gen::root_digest(&e);
     }
